@@ -236,7 +236,7 @@ def run_shard(ctx):
     if ctx.shard == 1:
         caller_dict_reused(ctx, rng)
     work = []
-    for kind in K.KINDS:
+    for kind in list(K.KINDS) + list(K.UNUSUAL_RSA):
         for rep in K.REPS:
             work.append((kind, rep, None))
         if kind.startswith("EC:"):
